@@ -95,3 +95,24 @@ REGISTRY["C04"] = {
         {"name": "TestC04Random", "checks": {"quick": 200, "thorough": 5000}, "shards": {"quick": 8, "thorough": 16}, "gomaxprocs": [4, 1, 2, 16]},
     ],
 }
+
+REGISTRY["C05"] = {
+    "pkg": "props/c05",
+    "level": "exploration",
+    "level_text": ("Table: inclusive fork with 1..3 (thorough 4) conditional branches x all truth assignments x default absent / at every branch x four body "
+                   "variants (single task, task chain, branch that may end through an exclusive gateway before the join, empty branch; block repeated) x "
+                   "three deterministic completion orders; plus rapid-drawn bodies, listing orders, completion orders, both languages. Lock-step against "
+                   "the token game whose join fires when every token of the fork has arrived or ended (the latest moment the property allows) and accepts "
+                   "an earlier firing from the moment the BPMN rule enables it; fork error case (no true condition, no default) expects the error trace and no token."),
+    "level_note": LOCKSTEP_TRUST + " The asynchronous catch-up of the join's tracker is exercised only through GOMAXPROCS variation and natural scheduling.",
+    "technique": "bounded-exhaustive table + rapid property test, lock-step differential against a token-game model with an allowed firing window for the join",
+    "rule": ("task -> inclusive fork -> branches -> inclusive join -> task (block possibly twice). Distinct = descriptor incl. answer order. Non-trivial = >=2 branches "
+             "activated with >=2 requests pending at once, or an activated branch that ends before the join, or an unactivated branch present. TestC05Nested keeps the "
+             "pattern of known finding C05-F1 (inclusive gateways nested with other forks) in the domain and attributes a failure to it only on a matching symptom."),
+    "assumptions": ["inclusive gateways are not nested with other forks in the main campaign (finding C05-F1, constructed around)"],
+    "tests": [
+        {"name": "TestC05Table", "mode": "plain", "shards": {"quick": 1, "thorough": 1}},
+        {"name": "TestC05Random", "checks": {"quick": 200, "thorough": 5000}, "shards": {"quick": 8, "thorough": 16}, "gomaxprocs": [4, 1, 2, 16]},
+        {"name": "TestC05Nested", "env": {"VERIF_UNRESTRICTED": "1"}, "checks": {"quick": 60, "thorough": 1000}, "shards": {"quick": 4, "thorough": 8}},
+    ],
+}
